@@ -391,10 +391,16 @@ def carry_shared(prog: Program, c1: RuleResult) -> RuleResult:
     return r
 
 
-def carry2(prog: Program) -> RuleResult:
-    r = RuleResult("CARRY-2", "no shared one-shot iterator is advanced by evaluation", floor=1)
+def _yields_in(part) -> List[ast.AST]:
+    return [x for x in ast.walk(part) if isinstance(x, (ast.Yield, ast.YieldFrom))]
+
+
+def _shared_sources(prog: Program):
+    """(class, field, assigning method, assignment, advance sites) for every field of an EQL class that holds a one-shot
+    iterator; an advance site is (method in the evaluation closure, the `for` over the field or the next() call on it), the
+    field being named directly or through a local that stands for it (source = self.fld if ... else iter(self.fld))"""
     ev = eval_closure(prog)
-    n = 0
+    out = []
     for c in sorted(prog.classes.values(), key=lambda x: x.qual):
         if ".entity_query_language." not in c.qual:
             continue
@@ -407,21 +413,120 @@ def carry2(prog: Program) -> RuleResult:
                             one_shot[t.attr] = (f, s)
         for fld, (f, s) in sorted(one_shot.items()):
             adv = []
-            for g in c.methods.values():
+            for g in sorted(c.methods.values(), key=lambda x: x.qual):
                 if g not in ev:
                     continue
+                alias = {t.id for x in walk_local(g.node) if isinstance(x, ast.Assign) and any(is_self_attr(y, fld) for y in ast.walk(x.value))
+                         and not any(isinstance(y, ast.Call) and call_name(y) in ("list", "tuple", "set", "sorted") for y in ast.walk(x.value))
+                         for t in x.targets if isinstance(t, ast.Name)}
+                is_src = lambda e: is_self_attr(e, fld) or (isinstance(e, ast.Name) and e.id in alias)
                 for x in walk_local(g.node):
-                    if isinstance(x, ast.For) and is_self_attr(x.iter, fld):
+                    if isinstance(x, ast.For) and is_src(x.iter):
                         adv.append((g, x))
-                    if isinstance(x, ast.Call) and call_name(x) == "next" and x.args and is_self_attr(x.args[0], fld):
+                    if isinstance(x, ast.Call) and call_name(x) == "next" and x.args and is_src(x.args[0]):
                         adv.append((g, x))
+            out.append((c, fld, f, s, adv))
+    return out
+
+
+def _cache_stores(cfg: CFG, fld: str):
+    """statement nodes that record something in a field of the object other than the source itself"""
+    return [m for m in cfg.nodes if m.stmt is not None and m.kind == "stmt" and (
+        (isinstance(m.stmt, ast.Assign) and any(isinstance(t, ast.Subscript) and is_self_attr(t.value) and t.value.attr != fld for t in m.stmt.targets))
+        or any(call_name(cc) in ("add", "append", "setdefault") and isinstance(cc.func, ast.Attribute) and is_self_attr(cc.func.value) and cc.func.value.attr != fld for cc in calls_in(m.stmt)))]
+
+
+def _cache_fields(stores) -> Set[str]:
+    out = {t.value.attr for m in stores if isinstance(m.stmt, ast.Assign) for t in m.stmt.targets if isinstance(t, ast.Subscript) and is_self_attr(t.value)}
+    return out | {cc.func.value.attr for m in stores for cc in calls_in(m.stmt) if call_name(cc) in ("add", "append", "setdefault") and isinstance(cc.func, ast.Attribute) and is_self_attr(cc.func.value)}
+
+
+def _loose_handouts(cfg: CFG, xn: int, x: ast.AST, stores) -> List:
+    """hand-outs (yield / return of a value) of the element pulled at node xn that it reaches without passing a store"""
+    node = cfg.nodes[xn]
+    pulled = None
+    if isinstance(x, ast.For) and isinstance(x.target, ast.Name):
+        pulled = x.target.id
+    elif isinstance(node.stmt, ast.Assign) and node.stmt.value is x and len(node.stmt.targets) == 1 and isinstance(node.stmt.targets[0], ast.Name):
+        pulled = node.stmt.targets[0].id
+    redefs = {m.id for m in cfg.nodes if m.id != xn and m.stmt is not None and pulled and (
+        (m.kind == "for" and any(isinstance(y, ast.Name) and y.id == pulled for y in ast.walk(m.stmt.target)))
+        or (m.kind == "stmt" and isinstance(m.stmt, (ast.Assign, ast.AnnAssign, ast.AugAssign)) and any(
+            isinstance(y, ast.Name) and y.id == pulled and isinstance(y.ctx, ast.Store) for y in ast.walk(m.stmt))))}
+
+    def hands_out(m):
+        vals = [y.value for p in cfg._own_parts(m) for y in _yields_in(p) if y.value is not None]
+        if isinstance(m.stmt, ast.Return) and m.stmt.value is not None:
+            vals.append(m.stmt.value)
+        # without a named local the pulled element cannot be followed: every hand-out counts
+        return any(pulled is None or any(isinstance(z, ast.Name) and z.id == pulled for z in ast.walk(v)) for v in vals)
+
+    after = cfg.reachable(xn) - {xn}
+    outs = [m for m in cfg.nodes if m.id in after and m.stmt is not None and m.kind == "stmt" and hands_out(m)]
+    store_ids = {m.id for m in stores}
+    return [m for m in outs if cfg.path_avoiding(xn, m.id, store_ids | redefs) is not None]
+
+
+def carry2(prog: Program) -> RuleResult:
+    """A field that holds a one-shot iterator and is advanced by evaluation is shared by all live iterations of every
+    expression that reaches the object. That is sound only under a cache discipline: (1) every element pulled from the
+    source is recorded in a cache field of the same object before anything is handed out, (2) an iterating method looks
+    at the cache again after every pull - the read of the cache and the advance of the source lie on a common cycle, so
+    what another live iteration pulled meanwhile is delivered too (a replay phase followed by a drain phase is not
+    enough: an iteration in its drain phase never sees what the others pulled), and (3) no live view of the cache is
+    iterated across a yield (another iteration adds to the cache while this one is suspended)."""
+    r = RuleResult("CARRY-2", "a stored one-shot iterator that evaluation advances is shared only through a cache every live iteration re-reads", floor=1)
+    n = 0
+    for c, fld, f, s, adv in _shared_sources(prog):
+        if True:
             n += 1
-            r.check(
-                not adv, f"{c.name}.{fld}", site(f, s), src(s)[:120],
-                "never advanced from the evaluation closure",
-                f"{c.name}.{fld} holds a one-shot iterator and is advanced by {sorted({a[0].short for a in adv})}, which evaluation reaches; the object outlives the "
-                f"evaluation, so all live iterations of the expression share one generator (a nested loop over two queries sharing a variable yields a fraction of the pairs)",
-            )
+            if not adv:
+                r.ok(f"{c.name}.{fld}", site(f, s), src(s)[:120], "never advanced from the evaluation closure")
+                continue
+            for g, x in adv:
+                cfg = CFG(g.node)
+                key = f"{c.name}.{fld}@{g.name}"
+                xn = cfg.node_of(x)
+                if xn is None:
+                    raise AnalysisError(f"CARRY-2: the advance of {c.name}.{fld} in {g.short} has no node in the flow graph")
+                # (1) the pulled element is cached before anything is handed out
+                stores = _cache_stores(cfg, fld)
+                store_ids = {m.id for m in stores}
+                loose = _loose_handouts(cfg, xn, x, stores)
+                r.check(bool(stores) and not loose, key + "#pulled-element-cached", site(g, x), src(x)[:100],
+                        "every element pulled from the shared source is recorded in a cache field before anything is handed out",
+                        f"{g.short} advances the one-shot iterator {c.name}.{fld}, which all live iterations share, and hands out"
+                        f"{' at line ' + str(loose[0].lineno) if loose else ''} without recording the pulled element in a cache field first: the element is "
+                        "gone from the source and no other iteration (nested loop, interleaved or later evaluation) ever sees it")
+                if not g.is_generator:
+                    continue
+                cache_fields = _cache_fields(stores)
+                reads = [m for m in cfg.nodes if m.stmt is not None and any(
+                    isinstance(y, ast.Attribute) and isinstance(y.ctx, ast.Load) and is_self_attr(y) and y.attr in cache_fields
+                    for p in cfg._own_parts(m) for y in ast.walk(p)) and m.id not in store_ids]
+                # (2) a read of the cache on a common cycle with the advance
+                cyc = [m for m in reads if xn in cfg.reachable(m.id) and m.id in cfg.reachable(xn)]
+                r.check(bool(cyc), key + "#cache-reread-after-pull", site(g, x), src(reads[0].stmt)[:100] if reads else "",
+                        "the iteration looks at the cache again after every pull: what another live iteration pulled meanwhile is delivered too",
+                        f"{g.short} replays the cache and then drains the shared source without looking at the cache again: two live iterations of expressions that share "
+                        "the object each get only the elements they pull themselves (a nested loop over two queries sharing a variable yields a fraction of the pairs; "
+                        "two interleaved evaluations of one query split the domain between them)")
+                # (3) no live view of the cache iterated across a yield
+                live = []
+                for m in cfg.nodes:
+                    if m.stmt is None:
+                        continue
+                    its = [y.value for p in cfg._own_parts(m) for y in ast.walk(p) if isinstance(y, ast.YieldFrom)]
+                    if m.kind == "for" and any(_yields_in(b) for b in m.stmt.body):
+                        its.append(m.stmt.iter)
+                    for it in its:
+                        snap = isinstance(it, ast.Call) and call_name(it) in ("list", "tuple", "sorted", "set", "frozenset")
+                        if not snap and any(isinstance(z, ast.Attribute) and is_self_attr(z) and z.attr in cache_fields for z in ast.walk(it)):
+                            live.append((m, it))
+                r.check(not live, key + "#no-live-view-across-yield", site(g, live[0][0].stmt) if live else site(g), src(live[0][1])[:100] if live else "",
+                        "the cache is read through snapshots: no view of it is being iterated while the generator is suspended",
+                        f"{g.short} iterates a live view of the cache ({src(live[0][1])[:60] if live else ''}) across a yield: while this iteration is suspended another live "
+                        "iteration adds to the cache and the resumed one dies with 'dictionary changed size during iteration'")
     if n == 0:
         r.ok("eql#no-stored-one-shot-iterator", "src/krrood/entity_query_language", "", "no field holds a one-shot iterator")
     return r
@@ -496,45 +601,81 @@ def ep_handshake(prog: Program) -> RuleResult:
 
 
 def domain_cache(prog: Program) -> RuleResult:
-    """A caching iterator over a one-shot source (the variable-domain cache) must replay the cache first and
-    record every element *before* handing it out - otherwise an iteration that is abandoned right after a
-    value's first delivery (break, early return, closed generator) loses that value for every later evaluation."""
-    r = RuleResult("DOMAIN-CACHE", "caching iterators record an element before yielding it and replay the cache first", floor=2)
+    """A caching iterator over a one-shot source (the variable-domain cache): every element is recorded *before* it is
+    handed out - otherwise an iteration that is abandoned right after a value's first delivery (break, early return,
+    closed generator) loses that value for every later evaluation; what is cached is delivered without advancing the
+    source first; and the iteration only finishes after it has found the source exhausted."""
+    r = RuleResult("DOMAIN-CACHE", "caching iterators record an element before yielding it, replay the cache first and drain the source before they finish", floor=2)
     n = 0
-    for c in sorted(prog.classes.values(), key=lambda x: x.qual):
-        if ".entity_query_language." not in c.qual:
-            continue
-        f = c.methods.get("__iter__")
-        if f is None or not f.is_generator:
-            continue
-        cfg = CFG(f.node)
-        for lp in [x for x in cfg.nodes if x.kind == "for" and is_self_attr(x.stmt.iter)]:
-            src_field = x_attr = lp.stmt.iter.attr
-            # is the iterated field a stored one-shot iterator?
-            one_shot = False
-            for g in c.methods.values():
-                for st in walk_local(g.node):
-                    if isinstance(st, ast.Assign) and any(is_self_attr(t, src_field) for t in st.targets) and (
-                        isinstance(st.value, ast.GeneratorExp) or (isinstance(st.value, ast.Call) and call_name(st.value) in ("filter", "map", "iter"))
-                    ):
-                        one_shot = True
-            if not one_shot:
+    for c, fld, f0, s0, adv in _shared_sources(prog):
+        for g, x in adv:
+            if not g.is_generator:
                 continue
             n += 1
-            tv = lp.stmt.target.id if isinstance(lp.stmt.target, ast.Name) else None
-            body = [x for x in cfg.nodes if lp.id in x.loops]
-            ys = [x for x in body if x.kind == "stmt" and isinstance(x.stmt, ast.Expr) and isinstance(x.stmt.value, ast.Yield)]
-            stores = [x for x in body if isinstance(x.stmt, ast.Assign) and any(isinstance(t, ast.Subscript) and is_self_attr(t.value) for t in x.stmt.targets) and tv and src(x.stmt.value) == tv]
-            stores += [x for x in body if x.kind == "stmt" and any(call_name(cc) in ("add", "append", "setdefault") and isinstance(cc.func, ast.Attribute) and is_self_attr(cc.func.value) for cc in calls_in(x.stmt))]
-            ok = bool(ys) and bool(stores) and all(any(cfg.dominates(st.id, y.id) for st in stores) for y in ys)
-            r.check(ok, f"{c.name}.__iter__#record-before-yield", site(f, lp.stmt), src(lp.stmt.iter),
+            cfg = CFG(g.node)
+            xn = cfg.node_of(x)
+            if xn is None:
+                raise AnalysisError(f"DOMAIN-CACHE: the advance of {c.name}.{fld} in {g.short} has no node in the flow graph")
+            stores = _cache_stores(cfg, fld)
+            loose = _loose_handouts(cfg, xn, x, stores)
+            r.check(bool(stores) and not loose, f"{c.name}.{g.name}#record-before-yield", site(g, x), src(x)[:100] if not isinstance(x, ast.For) else src(x.iter),
                     "every element pulled from the one-shot source is cached before it is handed out",
                     "an element pulled from the one-shot source is handed out before it is cached: if the consumer stops right there (a universal quantifier's break, the(), "
                     "an abandoned iterator) the value is gone from the source and never reaches the cache - it is missing from every later evaluation")
-            cache_fields = {t.value.attr for st in stores if isinstance(st.stmt, ast.Assign) for t in st.stmt.targets if isinstance(t, ast.Subscript) and is_self_attr(t.value)}
-            replays = [x for x in cfg.nodes if x.kind == "stmt" and isinstance(x.stmt, ast.Expr) and isinstance(x.stmt.value, ast.YieldFrom) and any(cf in src(x.stmt.value.value) for cf in cache_fields)]
-            r.check(bool(replays) and all(cfg.dominates(rp.id, lp.id) for rp in replays), f"{c.name}.__iter__#replay-first", site(f), src(replays[0].stmt) if replays else "",
-                    "cached elements are replayed before the source is advanced", "a re-iteration does not replay the cached elements before advancing the source: earlier values are lost or reordered")
+            cache_fields = _cache_fields(stores)
+            all_adv = {cfg.node_of(y) for gg, y in adv if gg is g}
+            # hand-outs of cached content: a yield (from) whose value is read from the cache, directly or through a local / loop variable filled from it
+            from_cache = set()
+            for m in cfg.nodes:
+                if m.stmt is None:
+                    continue
+                srcs = []
+                if m.kind == "for":
+                    srcs = [(m.stmt.iter, m.stmt.target)]
+                elif isinstance(m.stmt, ast.Assign):
+                    srcs = [(m.stmt.value, t) for t in m.stmt.targets]
+                for val, tgt in srcs:
+                    if any(isinstance(z, ast.Attribute) and is_self_attr(z) and z.attr in cache_fields for z in ast.walk(val)):
+                        from_cache |= {z.id for z in ast.walk(tgt) if isinstance(z, ast.Name)}
+            replays = []
+            for m in cfg.nodes:
+                if m.stmt is None or m.kind != "stmt":
+                    continue
+                for p in cfg._own_parts(m):
+                    for y in _yields_in(p):
+                        if y.value is not None and any(
+                            (isinstance(z, ast.Attribute) and is_self_attr(z) and z.attr in cache_fields) or (isinstance(z, ast.Name) and z.id in from_cache)
+                            for z in ast.walk(y.value)
+                        ) and m.id not in {l.id for l in loose}:
+                            replays.append(m)
+            # a replay reachable from the entry without advancing the source, that is not itself the hand-out right after a pull
+            pulled_names = {x.target.id} if isinstance(x, ast.For) and isinstance(x.target, ast.Name) else set()
+            first = [m for m in replays if cfg.path_avoiding(cfg.entry, m.id, set(all_adv) - {None}) is not None]
+            r.check(bool(first), f"{c.name}.{g.name}#replay-first", site(g), src(first[0].stmt) if first else (src(replays[0].stmt) if replays else ""),
+                    "cached elements are delivered before the source is advanced", "a re-iteration does not deliver the cached elements before advancing the source: earlier values are lost or reordered")
+            # a replay by position (islice(cache, start, ...) / cache[start:]) starts at the beginning: every plain assignment of the position is 0
+            starts = set()
+            for m in cfg.nodes:
+                if m.stmt is None:
+                    continue
+                for p in cfg._own_parts(m):
+                    for y in ast.walk(p):
+                        if isinstance(y, ast.Call) and call_name(y) == "islice" and len(y.args) >= 2 and any(
+                                isinstance(z, ast.Attribute) and is_self_attr(z) and z.attr in cache_fields for z in ast.walk(y.args[0])):
+                            starts |= {z.id for z in ast.walk(y.args[1]) if isinstance(z, ast.Name)}
+                        if isinstance(y, ast.Subscript) and isinstance(y.slice, ast.Slice) and y.slice.lower is not None and any(
+                                isinstance(z, ast.Attribute) and is_self_attr(z) and z.attr in cache_fields for z in ast.walk(y.value)):
+                            starts |= {z.id for z in ast.walk(y.slice.lower) if isinstance(z, ast.Name)}
+            for name in sorted(starts):
+                inits = [m for m in cfg.nodes if m.kind == "stmt" and isinstance(m.stmt, ast.Assign) and any(isinstance(t, ast.Name) and t.id == name for t in m.stmt.targets)]
+                bad = [m for m in inits if not (isinstance(m.stmt.value, ast.Constant) and m.stmt.value.value == 0)]
+                r.check(bool(inits) and not bad, f"{c.name}.{g.name}#replay-from-the-start:{name}", site(g, (bad or inits or [cfg.nodes[xn]])[0].stmt), src((bad or inits)[0].stmt) if (bad or inits) else name,
+                        "the position from which the cache is replayed starts at 0", "the position from which the cache is replayed does not start at 0: a re-iteration skips values that earlier iterations cached")
+            # the generator finishes only after an advance of the source (which found it exhausted)
+            skip = cfg.path_avoiding(cfg.entry, cfg.exit, set(all_adv) - {None})
+            r.check(skip is None, f"{c.name}.{g.name}#drains-before-finishing", site(g), " -> ".join(cfg.describe(skip)) if skip else "",
+                    "the iteration ends only after it has advanced the source and found it exhausted",
+                    "the iteration can finish without looking at the source: what was not pulled by an earlier, abandoned iteration is never delivered")
     if n == 0:
         r.ok("eql#no-caching-iterator", "src/krrood/entity_query_language", "", "no caching iterator over a one-shot source")
         r.floor = 1
